@@ -103,7 +103,19 @@ pub fn gen_chist(rng: &mut Rng, with_dump: bool) -> CHist {
             ops.push(COp::Explain(rng.below(nadd), rng.below(nadd)));
         }
     }
+    explain_asserted(&mut ops);
     CHist { ops, lang: "pay" }
+}
+
+/// explanations builds: the first three asserted pairs are explained at the end (they are equal by assertion, so an explanation is
+/// rendered whatever the history did in between); the explanation text is part of the transcript
+fn explain_asserted(ops: &mut Vec<COp>) {
+    if cfg!(feature = "explanations") {
+        let pairs: Vec<(usize, usize)> = ops.iter().filter_map(|o| if let COp::Union(a, b) = o { Some((*a, *b)) } else { None }).take(3).collect();
+        for (a, b) in pairs {
+            ops.push(COp::Explain(a, b));
+        }
+    }
 }
 
 fn gen_chist_sym(rng: &mut Rng, with_dump: bool) -> CHist {
@@ -145,6 +157,7 @@ fn gen_chist_sym(rng: &mut Rng, with_dump: bool) -> CHist {
             ops.push(COp::Explain(rng.below(nadd), rng.below(nadd)));
         }
     }
+    explain_asserted(&mut ops);
     CHist { ops, lang: "sym" }
 }
 
@@ -215,7 +228,8 @@ fn transcript_l<LPay: Language + 'static>(h: &CHist, print_live: bool, at_op: &m
                         if eg.eq(&ids[*a], &ids[*b]) {
                             let (ta, tb): (RecExpr<LPay>, RecExpr<LPay>) = (RecExpr::parse(&texts[*a]).unwrap(), RecExpr::parse(&texts[*b]).unwrap());
                             let p = eg.explain_equivalence(ta, tb);
-                            emit(format!("explain #{a} #{b} -> {}", p.to_string(&eg)), &mut out);
+                            // one transcript entry per explanation (the text has several lines; the process lane compares stdout line by line)
+                            emit(format!("explain #{a} #{b} -> {}", p.to_string(&eg).trim_end().replace('\n', " ;; ")), &mut out);
                         }
                     }
                     let _ = (a, b);
@@ -281,6 +295,7 @@ pub fn run_case(rng: &mut Rng, case_seed: u64, processes: usize, argv_extra: &[S
             return out;
         }
     };
+    out.add("explanations_rendered", base.iter().filter(|l| l.starts_with("explain #")).count() as u64);
     // ---- (a) K replay threads + noise threads, released together; yields injected at operation boundaries
     let k = 4;
     let nn = 4;
